@@ -35,6 +35,8 @@ type (
 	}
 	EIndex struct{ X, I Expr }
 	EUpd   struct{ X, I, V Expr }
+	// ESlice is s[lo:hi] on a slice value (lo / hi may be nil)
+	ESlice struct{ X, Lo, Hi Expr }
 	EQuant struct {
 		Forall bool
 		Vars   []QVar
@@ -409,7 +411,25 @@ func (p *sparser) postfix() Expr {
 			x = &ESel{x, t.s}
 		case p.isOp("["):
 			p.next()
+			if p.accept(":") { // s[:hi]
+				var hi Expr
+				if !p.isOp("]") {
+					hi = p.expr()
+				}
+				p.expect("]")
+				x = &ESlice{x, nil, hi}
+				continue
+			}
 			i := p.expr()
+			if p.accept(":") { // s[lo:hi] / s[lo:]
+				var hi Expr
+				if !p.isOp("]") {
+					hi = p.expr()
+				}
+				p.expect("]")
+				x = &ESlice{x, i, hi}
+				continue
+			}
 			if p.accept(":=") {
 				v := p.expr()
 				p.expect("]")
@@ -512,6 +532,15 @@ func exprString(e Expr) string {
 		return exprString(e.X) + "[" + exprString(e.I) + "]"
 	case *EUpd:
 		return exprString(e.X) + "[" + exprString(e.I) + " := " + exprString(e.V) + "]"
+	case *ESlice:
+		lo, hi := "", ""
+		if e.Lo != nil {
+			lo = exprString(e.Lo)
+		}
+		if e.Hi != nil {
+			hi = exprString(e.Hi)
+		}
+		return exprString(e.X) + "[" + lo + ":" + hi + "]"
 	case *EQuant:
 		q := "exists"
 		if e.Forall {
